@@ -234,7 +234,8 @@ class Run(OpsMixin, CallsMixin):
                 self.oblige(c, kind, tag, node, props, note, assume_after)
             return
         if not self.ch.replaying:
-            ob = Obligation(self.oid(tag), kind, list(self.pc), goal_s, self.where(node) if node is not None else '',
+            ob = Obligation(self.oid(tag), kind, list(self.pc) + ascii_lemmas(goal_s), goal_s,
+                            self.where(node) if node is not None else '',
                             self.contract.target or self.contract.name,
                             tuple(props) if props else self.contract.props, list(self.witnesses), note)
             self.obligations.append(ob)
@@ -243,6 +244,20 @@ class Run(OpsMixin, CallsMixin):
         if z3.is_false(goal_s):
             raise PathEnd()
         self.assume(goal_s)
+
+    def probe(self, tag, node=None, cap=None):
+        """Vacuity probe: records the current path condition with goal False.  It must NOT be provable: a proof means
+        the contract's assumptions at this point are contradictory (everything after it verifies vacuously)."""
+        probes = self.eng.probes
+        oid = self.oid('vacuity:' + tag)
+        if cap is not None and sum(1 for p in probes if p.oid == oid) >= cap:
+            return
+        if cap is None and self.ch.replaying:
+            return
+        ob = Obligation(oid, 'vacuity', list(self.pc), z3.BoolVal(False), self.where(node) if node is not None else '',
+                        self.contract.target or self.contract.name, self.contract.props, [], '')
+        ob.timeout_ms = 3000
+        probes.append(ob)
 
     def expand_exists(self, g, depth=0):
         """Or(A, Exists q. B(q))  ==  Or(A, Exists q. B(q), B(t1), B(t2)) for any terms t: offering the current loop
@@ -402,6 +417,7 @@ class Run(OpsMixin, CallsMixin):
                 self.assume_spec(cl.expr)
             if not self.feasible(z3.BoolVal(True) if not self.pc else self.pc[-1]):
                 raise PathEnd()
+            self.probe('precondition-satisfiable')
             self.entry = Snapshot(self)
             self.old = self.entry
             self.mods = []
@@ -432,6 +448,7 @@ class Run(OpsMixin, CallsMixin):
         for k, v in self.entry.env.items():
             fr.env[k] = v
         fr.env['result'] = result
+        self.probe('normal-exit-reachable', cap=4)
         for cl in contract.of('returns'):
             if isinstance(result, Const):
                 self.oblige(z3.BoolVal(False), 'post', 'returns-type', None)
@@ -814,6 +831,7 @@ class Run(OpsMixin, CallsMixin):
         if not self.branch(self.truth(self.ev(st.test))):
             self.exec_block(st.orelse)
             return
+        self.probe('loop-body-reachable:' + hdr, st, cap=2)
         try:
             self.exec_block(st.body)
         except BreakSig:
@@ -882,6 +900,7 @@ class Run(OpsMixin, CallsMixin):
         self.instantiate(k)
         self.witness_terms = [k, k - 1] + getattr(self, 'witness_terms', [])[:2]
         self.assign(st.target, it.item(self, k))
+        self.probe('loop-body-reachable:' + hdr, st, cap=2)
         try:
             self.exec_block(st.body)
         except BreakSig:
@@ -894,6 +913,46 @@ class Run(OpsMixin, CallsMixin):
         for cl in spec['invs']:
             self.oblige(self.ev_spec(cl.expr), 'inv-preserve', 'inv:%s:%s' % (hdr, cl.tag or cl.line), st, cl.props)
         raise PathEnd()
+
+
+_ASCII_RE = z3.Star(z3.Range(chr(0), chr(127)))
+
+
+def ascii_lemmas(goal):
+    """Instances of the closure lemma `concatenations and substrings of ASCII strings are ASCII` for the terms the goal
+    asks about: for every subterm in_re(X, [\\x00-\\x7f]*) of the goal, (all string leaves of X are ASCII) => X is ASCII.
+    A valid fact about strings, added as a hypothesis (the solvers do not find it by themselves within budget)."""
+    want = _ASCII_RE.sexpr()
+    out, seen, todo = [], set(), [goal]
+    while todo:
+        t = todo.pop()
+        if t.get_id() in seen:
+            continue
+        seen.add(t.get_id())
+        if z3.is_quantifier(t):
+            continue
+        if z3.is_app(t):
+            if t.decl().kind() == z3.Z3_OP_SEQ_IN_RE and t.arg(1).sexpr() == want:
+                leaves, ok = [], True
+                stack = [t.arg(0)]
+                while stack:
+                    x = stack.pop()
+                    k = x.decl().kind() if z3.is_app(x) else None
+                    if k == z3.Z3_OP_SEQ_CONCAT:
+                        stack.extend(x.children())
+                    elif k in (z3.Z3_OP_SEQ_EXTRACT, z3.Z3_OP_SEQ_AT):
+                        stack.append(x.arg(0))
+                    elif k == z3.Z3_OP_ITE:
+                        stack.extend([x.arg(1), x.arg(2)])
+                    elif z3.is_string_value(x):
+                        if not all(ord(c) < 128 for c in x.as_string()):
+                            ok = False
+                    else:
+                        leaves.append(x)
+                if ok and (len(leaves) != 1 or leaves[0].get_id() != t.arg(0).get_id()):
+                    out.append(z3.Implies(z3.And([z3.InRe(l, _ASCII_RE) for l in leaves]) if leaves else z3.BoolVal(True), t))
+            todo.extend(t.children())
+    return out
 
 
 def is_val_term(v):
